@@ -660,6 +660,9 @@ coll_impl!(<'w> BoxedLockCollection<(&'w R, &'w R, &'w R, &'w R, &'w R, &'w R, &
 coll_impl!(<'w> RefLockCollection<'w, (&'w R, &'w R, &'w R, &'w R, &'w R, &'w R, &'w R)>, "Ref<(&RwLock x7)>", rw);
 coll_impl!(<'w> RetryingLockCollection<(&'w R, &'w R, &'w R, &'w R, &'w R, &'w R, &'w R)>, "Retrying<(&RwLock x7)>", rw);
 coll_impl!(<'w> OwnedLockCollection<(R, R, R, R, R, R, R)>, "Owned<(RwLock x7)>", rw);
+coll_impl!(<'w> BoxedLockCollection<&'w OwnedLockCollection<Vec<&'w mut R>>>, "Boxed<&Owned<Vec<&mut RwLock>>> (new_ref)", rw);
+coll_impl!(<'w> RefLockCollection<'w, OwnedLockCollection<Vec<&'w mut R>>>, "Ref<Owned<Vec<&mut RwLock>>> (new)", rw);
+coll_impl!(<'w> RetryingLockCollection<&'w OwnedLockCollection<Vec<&'w mut R>>>, "Retrying<&Owned<Vec<&mut RwLock>>> (new_ref)", rw);
 // a sorting / retrying collection over a reference to an owned unit whose members are listed in descending address order
 coll_impl!(<'w> BoxedLockCollection<(&'w OwnedLockCollection<Vec<&'w mut R>>, &'w R)>, "Boxed<(&Owned<Vec<&mut RwLock>>,&RwLock)>", rw);
 coll_impl!(<'w> RefLockCollection<'w, (&'w OwnedLockCollection<Vec<&'w mut R>>, &'w R)>, "Ref<(&Owned<Vec<&mut RwLock>>,&RwLock)>", rw);
@@ -698,25 +701,18 @@ pub struct Store {
 	base: *mut u8,
 	off: std::cell::Cell<usize>,
 }
-const STORE_BYTES: usize = 1 << 20;
+use crate::halloc::STORE_BYTES;
 thread_local! {
-	static STORE_BUF: RefCell<Option<(*mut u8, bool)>> = const { RefCell::new(None) };
+	static STORE_ALIVE: std::cell::Cell<bool> = const { std::cell::Cell::new(false) };
 }
 impl Store {
 	pub fn new() -> Self {
-		let base = STORE_BUF.with(|b| {
-			let mut b = b.borrow_mut();
-			if b.is_none() {
-				let layout = std::alloc::Layout::from_size_align(STORE_BYTES, 4096).unwrap();
-				let p = unsafe { std::alloc::alloc(layout) };
-				assert!(!p.is_null());
-				*b = Some((p, false));
-			}
-			let e = b.as_mut().unwrap();
-			assert!(!e.1, "harness: two Stores alive on one thread");
-			e.1 = true;
-			e.0
+		let base = crate::halloc::my_slice();
+		STORE_ALIVE.with(|a| {
+			assert!(!a.get(), "harness: two Stores alive on one thread");
+			a.set(true);
 		});
+		crate::halloc::reset_heap();
 		Store { items: RefCell::new(vec![]), base, off: std::cell::Cell::new(0) }
 	}
 	fn stash_raw<T>(&self, v: T) -> *mut T {
@@ -748,11 +744,7 @@ impl Drop for Store {
 		while let Some((p, d)) = items.pop() {
 			unsafe { d(p) }
 		}
-		STORE_BUF.with(|b| {
-			if let Some(e) = b.borrow_mut().as_mut() {
-				e.1 = false;
-			}
-		});
+		STORE_ALIVE.with(|a| a.set(false));
 	}
 }
 
@@ -812,6 +804,7 @@ pub const ARENA_TOTAL: u32 = ARENA_LOCKS + 2;
 impl Arena {
 	/// The arena is the first object of the execution's store.
 	pub fn new_in(store: &Store) -> &Arena {
+		let _scope = crate::halloc::BuildScope::enter();
 		let r: [R; NR] = std::array::from_fn(|i| reg_r(R0 + i as u32));
 		let m: [M; NM] = std::array::from_fn(|i| reg_m(M0 + i as u32));
 		let pm: [PM; NPM] = std::array::from_fn(|i| Poisonable::new(reg_m(PM0 + i as u32)));
